@@ -90,7 +90,10 @@ impl BVec3A {
     #[inline]
     #[must_use]
     pub fn test(&self, index: usize) -> bool {
-        self.0.test(index)
+        match index {
+            0..=2 => self.0.test(index),
+            _ => panic!("index out of bounds"),
+        }
     }
 
     /// Sets the element at `index`.
@@ -98,7 +101,10 @@ impl BVec3A {
     /// Panics if `index` is greater than 2.
     #[inline]
     pub fn set(&mut self, index: usize, value: bool) {
-        self.0.set(index, value)
+        match index {
+            0..=2 => self.0.set(index, value),
+            _ => panic!("index out of bounds"),
+        }
     }
 
     #[inline]
